@@ -30,6 +30,44 @@ use std::cell::RefCell;
 // element types
 // ---------------------------------------------------------------------------------------------
 
+// ---------------------------------------------------------------------------------------------
+// the data stored in the leaves
+//
+// `ids` (default): every cell holds its own id, so positions are identifiable by value.  The
+// degenerate modes make values collide on purpose (an iterator that skipped zeros, equal
+// neighbours or repeated values would otherwise go unnoticed): the *sequence* of values is
+// compared, and references are still identified by address.
+// ---------------------------------------------------------------------------------------------
+
+thread_local! {
+    static DATA_MODE: std::cell::Cell<u8> = std::cell::Cell::new(0);
+}
+
+const MODES: [&str; 5] = ["ids", "zero", "same", "dup", "mod3"];
+
+fn set_mode(name: &str) {
+    let m = MODES.iter().position(|m| *m == name).expect("data mode") as u8;
+    DATA_MODE.with(|d| d.set(m));
+}
+
+fn mode() -> u8 {
+    DATA_MODE.with(|d| d.get())
+}
+
+/// the value stored in the cell with this id
+fn val_of(id: usize) -> u64 {
+    match mode() {
+        0 => id as u64,
+        1 => 0,
+        2 => 7,
+        3 => (id / 2) as u64,
+        _ => (id % 3) as u64,
+    }
+}
+
+/// what the mutable iterators' items are overwritten with in the degenerate modes
+const EQUAL_WRITE: u64 = 5;
+
 const PLACEHOLDER: u64 = u64::MAX;
 /// the placeholder made by `ZeroOne::zero` (the `from_numeric` constructors)
 const ZERO_PLACEHOLDER: u64 = u64::MAX - 1;
@@ -45,23 +83,16 @@ thread_local! {
 #[derive(Debug)]
 pub struct Dc {
     id: u64,
+    /// the payload shown (`val_of(id)`; equal to the id in the default data mode)
+    val: u64,
 }
 
 impl Dc {
     fn new(id: u64) -> Dc {
-        Dc { id }
+        Dc { id, val: val_of(id as usize) }
     }
     fn show(&self) -> String {
-        if self.id == PLACEHOLDER || self.id == ZERO_PLACEHOLDER { "P".into() } else { self.id.to_string() }
-    }
-}
-
-impl Dc {
-    /// render an id read from a leaf (the temporary must not count as a drop)
-    fn show_forget(self) -> String {
-        let s = self.show();
-        std::mem::forget(self);
-        s
+        if self.id == PLACEHOLDER || self.id == ZERO_PLACEHOLDER { "P".into() } else { self.val.to_string() }
     }
 }
 
@@ -69,7 +100,7 @@ impl Default for Dc {
     fn default() -> Dc {
         DROPS.with(|d| d.borrow_mut().1 += 1);
         PRODUCERS.with(|p| p.borrow_mut().0 += 1);
-        Dc { id: PLACEHOLDER }
+        Dc { id: PLACEHOLDER, val: 0 }
     }
 }
 
@@ -77,7 +108,7 @@ impl ZeroOne for Dc {
     fn zero() -> Dc {
         DROPS.with(|d| d.borrow_mut().1 += 1);
         PRODUCERS.with(|p| p.borrow_mut().1 += 1);
-        Dc { id: ZERO_PLACEHOLDER }
+        Dc { id: ZERO_PLACEHOLDER, val: 0 }
     }
     fn one() -> Dc {
         unreachable!("the iterators never ask for one()")
@@ -325,8 +356,8 @@ impl Base {
         match self.id_of(r as *const u64) {
             None => format!("!addr{:x}", r as *const u64 as usize),
             Some(id) => {
-                if *r != id as u64 {
-                    // values equal ids until something is written: a stale or foreign cell
+                if *r != val_of(id) {
+                    // the value stored there until something is written: a stale or foreign cell
                     format!("{}!val{}", id, *r)
                 } else {
                     id.to_string()
@@ -399,7 +430,12 @@ fn write_all(refs: Vec<&mut u64>, base: Base) -> Vec<usize> {
     let cells: Vec<usize> =
         refs.iter().map(|r| base.id_of(&**r as *const u64).unwrap_or(usize::MAX)).collect();
     for r in refs {
-        *r += BUMP;
+        if mode() == 0 {
+            *r += BUMP;
+        } else {
+            // every handed-out element receives the same value
+            *r = EQUAL_WRITE;
+        }
     }
     cells
 }
@@ -421,7 +457,14 @@ fn distinct_report_ids(cells: &[usize], now: &[(usize, u64)]) -> &'static str {
     }
     for (id, v) in now {
         let k = seen[id];
-        if k > 1 || *v != *id as u64 + BUMP * k as u64 {
+        let expected = if mode() == 0 {
+            *id as u64 + BUMP * k as u64
+        } else if k == 0 {
+            val_of(*id)
+        } else {
+            EQUAL_WRITE
+        };
+        if k > 1 || *v != expected {
             return " distinct=ALIAS";
         }
     }
@@ -816,6 +859,9 @@ struct Op<'a> {
     into: bool,
     /// after this many with-index calls take the wrapped iterator back with `source()`
     split: Option<usize>,
+    /// `consume` operations: the std consumer applied after `after` plain calls
+    m: &'a str,
+    after: usize,
 }
 
 fn parse_op<'a>(op: &'a str, rest: &[&'a str]) -> Op<'a> {
@@ -829,6 +875,8 @@ fn parse_op<'a>(op: &'a str, rest: &[&'a str]) -> Op<'a> {
         via: opt_arg("via", rest).unwrap_or("boxed"),
         into: opt_arg("wvia", rest) == Some("into"),
         split: opt_arg("split", rest).map(|x| x.parse().unwrap()),
+        m: opt_arg("m", rest).unwrap_or("count"),
+        after: opt_arg("after", rest).map(|x| x.parse().unwrap()).unwrap_or(0),
     }
 }
 
@@ -839,6 +887,252 @@ fn access_names<const D: usize>(ads: &[TAd]) -> Option<[&'static str; D]> {
     }
 }
 
+
+// ---------------------------------------------------------------------------------------------
+// std's consumers on top of `next` (count / last / nth / fold / for_each with a panicking closure)
+// ---------------------------------------------------------------------------------------------
+
+/// `after` plain calls, then the consumer `m`:
+///   count        → `count=<n>`
+///   last         → `last=<item>`
+///   fold         → `fold=<item>,<item>,…`  (the whole remaining sequence, through `Iterator::fold`)
+///   nth.<j>      → `nth=<item> | <records of n further calls on the survivor>`
+///   panic.<p>    → `seen=<items> panicked|finished | <records of n further calls on the survivor>`
+///                  (`by_ref().for_each` with a closure that panics at its p-th element)
+fn consume<I: ExactSizeIterator>(
+    make: impl FnOnce() -> I,
+    op: &Op,
+    mut show: impl FnMut(I::Item) -> String,
+) -> String {
+    let mut it = match catch(make) {
+        Ok(it) => it,
+        Err(k) => return panic_str(k),
+    };
+    for _ in 0..op.after {
+        if let Err(k) = catch(|| it.next()) {
+            return panic_str(k);
+        }
+    }
+    let parts: Vec<&str> = op.m.split('.').collect();
+    let arg: usize = parts.get(1).map(|x| x.parse().unwrap()).unwrap_or(0);
+    match parts[0] {
+        "count" => match catch(move || it.count()) {
+            Ok(c) => format!("count={}", c),
+            Err(k) => panic_str(k),
+        },
+        "last" => match catch(move || it.last()) {
+            Ok(x) => format!("last={}", x.map(|x| show(x)).unwrap_or("-".into())),
+            Err(k) => panic_str(k),
+        },
+        "fold" => {
+            let r = catch(move || {
+                it.fold(Vec::<String>::new(), |mut acc, x| {
+                    acc.push(show(x));
+                    acc
+                })
+            });
+            match r {
+                Ok(v) => format!("fold={}", if v.is_empty() { "-".to_string() } else { v.join(",") }),
+                Err(k) => panic_str(k),
+            }
+        }
+        "nth" => {
+            let x = match catch(|| it.nth(arg)) {
+                Ok(x) => x,
+                Err(k) => return panic_str(k),
+            };
+            let head = format!("nth={}", x.map(|x| show(x)).unwrap_or("-".into()));
+            let mut recs = vec![];
+            records(&mut it, op.n, &mut show, &mut recs);
+            format!("{} | {}", head, recs.join(";"))
+        }
+        "panic" => {
+            let mut seen: Vec<String> = vec![];
+            let r = catch(|| {
+                let mut i = 0usize;
+                it.by_ref().for_each(|x| {
+                    seen.push(show(x));
+                    if i == arg {
+                        panic!("closure panics at element {}", i);
+                    }
+                    i += 1;
+                })
+            });
+            let how = match r {
+                Ok(()) => "finished",
+                Err(PanicKind::Explicit) => "panicked",
+                Err(k) => return panic_str(k),
+            };
+            let mut recs = vec![];
+            records(&mut it, op.n, &mut show, &mut recs);
+            format!(
+                "seen={} {} | {}",
+                if seen.is_empty() { "-".to_string() } else { seen.join(",") },
+                how,
+                recs.join(";")
+            )
+        }
+        other => panic!("unknown consumer {}", other),
+    }
+}
+
+/// the values a fresh iterator yields (collected under `catch`: the code under test may panic)
+fn fresh_values(f: impl FnOnce() -> Vec<String>) -> String {
+    match catch(f) {
+        Ok(v) => join_or_dash(v),
+        Err(k) => panic_str(k),
+    }
+}
+
+fn join_or_dash(v: Vec<String>) -> String {
+    if v.is_empty() { "-".to_string() } else { v.join(",") }
+}
+
+fn consume_boxed_u64<const D: usize>(src: BoxT<u64, D>, op: &Op, base: Base) -> String {
+    let mut src = src;
+    let into = op.into;
+    let s = match (op.f, op.wi) {
+        ("copy", false) => consume(|| TensorIterator::from(&src), op, |v: u64| v.to_string()),
+        ("copy", true) => consume(
+            || wi!(into, TensorIterator::from(&src)),
+            op,
+            |(i, v): ([usize; D], u64)| format!("{}@{}", v, i.show_idx()),
+        ),
+        ("ref", false) => consume(|| TensorReferenceIterator::from(&src), op, |r: &u64| base.cell(r)),
+        ("ref", true) => consume(
+            || wi!(into, TensorReferenceIterator::from(&src)),
+            op,
+            |(i, r): ([usize; D], &u64)| format!("{}@{}", base.cell(r), i.show_idx()),
+        ),
+        ("mut", false) => {
+            consume(|| TensorReferenceMutIterator::from(&mut src), op, |r: &mut u64| base.cell(r))
+        }
+        ("mut", true) => consume(
+            || wi!(into, TensorReferenceMutIterator::from(&mut src)),
+            op,
+            |(i, r): ([usize; D], &mut u64)| format!("{}@{}", base.cell(r), i.show_idx()),
+        ),
+        _ => return "bad-op".into(),
+    };
+    if op.m.starts_with("panic") {
+        // a fresh iterator over the same source object afterwards
+        let fresh = fresh_values(|| TensorIterator::from(&src).map(|v| v.to_string()).collect());
+        format!("{} | fresh={}", s, fresh)
+    } else {
+        s
+    }
+}
+
+fn consume_boxed_owned<const D: usize>(src: BoxT<Dc, D>, op: &Op) -> String {
+    let mut src = src;
+    let into = op.into;
+    let numeric = op.via.ends_with("_numeric");
+    // the source is held by `&mut`, so it can be looked at again afterwards
+    let s = if op.wi {
+        consume(
+            || wi!(into, own!(numeric, TensorOwnedIterator, &mut src)),
+            op,
+            |(i, v): ([usize; D], Dc)| format!("{}@{}", v.show(), i.show_idx()),
+        )
+    } else {
+        consume(|| own!(numeric, TensorOwnedIterator, &mut src), op, |v: Dc| v.show())
+    };
+    if op.m.starts_with("panic") {
+        let fresh = fresh_values(|| TensorReferenceIterator::from(&src).map(|d| d.show()).collect());
+        format!("{} | fresh={}", s, fresh)
+    } else {
+        s
+    }
+}
+
+fn consume_matrix_u64(src: BoxM<u64>, op: &Op, base: Base) -> String {
+    let mut src = src;
+    let into = op.into;
+    macro_rules! both_orders {
+        ($rm:expr, $cm:expr, $show:expr) => {
+            match op.kind {
+                "rowmajor" => consume(|| $rm, op, $show),
+                "colmajor" => consume(|| $cm, op, $show),
+                _ => return "bad-op".into(),
+            }
+        };
+    }
+    let s = match (op.f, op.wi) {
+        ("copy", false) => both_orders!(
+            mi::RowMajorIterator::from(&src),
+            mi::ColumnMajorIterator::from(&src),
+            |v: u64| v.to_string()
+        ),
+        ("copy", true) => both_orders!(
+            wi!(into, mi::RowMajorIterator::from(&src)),
+            wi!(into, mi::ColumnMajorIterator::from(&src)),
+            |(i, v): ((usize, usize), u64)| format!("{}@{}", v, i.show_idx())
+        ),
+        ("ref", false) => both_orders!(
+            mi::RowMajorReferenceIterator::from(&src),
+            mi::ColumnMajorReferenceIterator::from(&src),
+            |r: &u64| base.cell(r)
+        ),
+        ("ref", true) => both_orders!(
+            wi!(into, mi::RowMajorReferenceIterator::from(&src)),
+            wi!(into, mi::ColumnMajorReferenceIterator::from(&src)),
+            |(i, r): ((usize, usize), &u64)| format!("{}@{}", base.cell(r), i.show_idx())
+        ),
+        ("mut", false) => both_orders!(
+            mi::RowMajorReferenceMutIterator::from(&mut src),
+            mi::ColumnMajorReferenceMutIterator::from(&mut src),
+            |r: &mut u64| base.cell(r)
+        ),
+        ("mut", true) => both_orders!(
+            wi!(into, mi::RowMajorReferenceMutIterator::from(&mut src)),
+            wi!(into, mi::ColumnMajorReferenceMutIterator::from(&mut src)),
+            |(i, r): ((usize, usize), &mut u64)| format!("{}@{}", base.cell(r), i.show_idx())
+        ),
+        _ => return "bad-op".into(),
+    };
+    if op.m.starts_with("panic") {
+        let fresh = fresh_values(|| match op.kind {
+            "rowmajor" => mi::RowMajorIterator::from(&src).map(|v| v.to_string()).collect(),
+            _ => mi::ColumnMajorIterator::from(&src).map(|v| v.to_string()).collect(),
+        });
+        format!("{} | fresh={}", s, fresh)
+    } else {
+        s
+    }
+}
+
+fn consume_matrix_owned(src: BoxM<Dc>, op: &Op) -> String {
+    let mut src = src;
+    let into = op.into;
+    let numeric = op.via.ends_with("_numeric");
+    let s = match (op.kind, op.wi) {
+        ("rowmajor", false) => consume(|| own!(numeric, mi::RowMajorOwnedIterator, &mut src), op, |v: Dc| v.show()),
+        ("rowmajor", true) => consume(
+            || wi!(into, own!(numeric, mi::RowMajorOwnedIterator, &mut src)),
+            op,
+            |(i, v): ((usize, usize), Dc)| format!("{}@{}", v.show(), i.show_idx()),
+        ),
+        ("colmajor", false) => {
+            consume(|| own!(numeric, mi::ColumnMajorOwnedIterator, &mut src), op, |v: Dc| v.show())
+        }
+        ("colmajor", true) => consume(
+            || wi!(into, own!(numeric, mi::ColumnMajorOwnedIterator, &mut src)),
+            op,
+            |(i, v): ((usize, usize), Dc)| format!("{}@{}", v.show(), i.show_idx()),
+        ),
+        _ => return "bad-op".into(),
+    };
+    if op.m.starts_with("panic") {
+        let fresh = fresh_values(|| match op.kind {
+            "rowmajor" => mi::RowMajorReferenceIterator::from(&src).map(|d| d.show()).collect(),
+            _ => mi::ColumnMajorReferenceIterator::from(&src).map(|d| d.show()).collect(),
+        });
+        format!("{} | fresh={}", s, fresh)
+    } else {
+        s
+    }
+}
+
 /// every reference flavour over a boxed source: the iterator structs' constructors
 /// (`via=boxed`) or `TensorView` methods (`via=boxedview`), with `split` / `wvia` variants
 fn boxed_u64<const D: usize>(
@@ -846,6 +1140,9 @@ fn boxed_u64<const D: usize>(
     op: &Op,
     base: Base,
 ) -> Result<(String, Option<Vec<usize>>), String> {
+    if op.op == "consume" {
+        return Ok((consume_boxed_u64(src, op, base), None));
+    }
     let mut src = src;
     let n = op.n;
     let into = op.into;
@@ -916,7 +1213,7 @@ fn boxed_u64<const D: usize>(
 fn tensor_u64<const D: usize>(shape: &[(&'static str, usize)], ads: &[TAd], op: &Op) -> String {
     let shape: [(&'static str, usize); D] = shape_array(shape);
     let total: usize = shape.iter().map(|d| d.1).product();
-    let leaf = Leaf::new(Tensor::from(shape, (0..total as u64).collect()));
+    let leaf = Leaf::new(Tensor::from(shape, (0..total).map(val_of).collect()));
     let base = Base::single(TensorRef::get_reference(leaf.get(), [0; D]).unwrap() as *const u64);
     let n = op.n;
     let into = op.into;
@@ -1029,6 +1326,9 @@ fn tensor_u64<const D: usize>(shape: &[(&'static str, usize)], ads: &[TAd], op: 
 
 /// the owned iterator over a boxed source (`via=boxed[_numeric]`, `via=boxedview`)
 fn boxed_owned<const D: usize>(src: BoxT<Dc, D>, op: &Op) -> Result<(String, Vec<Dc>), String> {
+    if op.op == "consume" {
+        return Ok((consume_boxed_owned(src, op), vec![]));
+    }
     let n = op.n;
     let into = op.into;
     let split = op.split.unwrap_or(0);
@@ -1318,7 +1618,7 @@ fn leaf_ids<E>(leaves: &[LeafInfo<E>]) -> Vec<usize> {
 }
 
 fn zip_u64<const D: usize>(root: &Root, post: &[TAd], op: &Op) -> String {
-    let (src, leaves) = match build_zip::<u64, D>(root, post, |id| id, true) {
+    let (src, leaves) = match build_zip::<u64, D>(root, post, |id| val_of(id as usize), true) {
         Ok(x) => x,
         Err(e) => return e,
     };
@@ -1352,7 +1652,10 @@ fn zip_owned<const D: usize>(root: &Root, post: &[TAd], op: &Op) -> String {
     };
     if op.op == "left" {
         let s = show_left(
-            leaves.iter().flat_map(|l| l.leaf.map_cells(&|d| d.id)).map(|id| Dc { id }.show_forget()),
+            leaves
+                .iter()
+                .flat_map(|l| l.leaf.map_cells(&|d| if d.show() == "P" { PLACEHOLDER } else { d.val }))
+                .map(|v| if v == PLACEHOLDER { "P".to_string() } else { v.to_string() }),
         );
         drop(moved);
         return s;
@@ -1396,7 +1699,10 @@ fn parse_root(toks: &[&str]) -> (Root, Vec<TAd>) {
 }
 
 fn shape_iter<const D: usize>(lens: &[usize], n: usize) -> String {
-    let shape: [(&'static str, usize); D] = std::array::from_fn(|d| (NAME_POOL[d], lens[d]));
+    // the names play no role in iteration: take them from the adversarial list
+    let off: usize = lens.iter().fold(0usize, |a, l| a.wrapping_add(*l)) % 20;
+    let shape: [(&'static str, usize); D] =
+        std::array::from_fn(|d| (intern(ADVERSARIAL_NAMES[(off + d) % 20]), lens[d]));
     let recs = drive(|| ShapeIterator::from(shape), n, |i| i.show_idx());
     let mut total: u128 = 1;
     for &l in lens {
@@ -1435,7 +1741,7 @@ macro_rules! matrix_kinds {
 
 fn matrix_u64(rows: usize, cols: usize, ads: &[MAd], op: &Op) -> String {
     let total = rows * cols;
-    let leaf = Leaf::new(Matrix::from_flat_row_major((rows, cols), (0..total as u64).collect()));
+    let leaf = Leaf::new(Matrix::from_flat_row_major((rows, cols), (0..total).map(val_of).collect()));
     let base = Base::single(leaf.get().get_reference(0, 0) as *const u64);
     let a = op.a;
     let into = op.into;
@@ -1461,6 +1767,7 @@ fn matrix_u64(rows: usize, cols: usize, ads: &[MAd], op: &Op) -> String {
                 written = Some(w);
                 s
             }
+            (_, _) if op.op == "consume" => consume_matrix_u64(build_matrix(m, ads), op, base),
             (via, f) => {
                 let mut src = build_matrix(m, ads);
                 match (via, f) {
@@ -1578,6 +1885,9 @@ fn matrix_owned(rows: usize, cols: usize, ads: &[MAd], op: &Op) -> String {
         // Safety: `m` and everything built from it die at the end of this block
         let m: &'static mut Matrix<Dc> = unsafe { leaf.lend() };
         let src = build_matrix(m, ads);
+        if op.op == "consume" {
+            (consume_matrix_owned(src, op), vec![])
+        } else {
         match (op.kind, op.wi) {
             ("rowmajor", true) if op.split.is_some() => {
                 run_owned_split(move || wi!(into, own!(numeric, mi::RowMajorOwnedIterator, src)), split, n)
@@ -1592,6 +1902,7 @@ fn matrix_owned(rows: usize, cols: usize, ads: &[MAd], op: &Op) -> String {
                 run_owned_wi(move || wi!(into, own!(numeric, mi::ColumnMajorOwnedIterator, src)), n)
             }
             _ => return "bad-op".into(),
+        }
         }
     };
     if op.op == "left" {
@@ -1626,6 +1937,15 @@ impl Runner {
     }
 
     pub fn step(&mut self, toks: &[&str]) -> String {
+        // `d=<mode>` on a case header chooses the data stored in the leaves
+        let stripped: Vec<&str>;
+        let toks: &[&str] = if toks.first() == Some(&"@") {
+            set_mode(opt_arg("d", toks).unwrap_or("ids"));
+            stripped = toks.iter().copied().filter(|t| !t.starts_with("d=")).collect();
+            &stripped
+        } else {
+            toks
+        };
         match toks {
             ["@", "shape", lens_s] => {
                 self.case = Case::Shape(parse_usizes(lens_s));
@@ -1673,7 +1993,7 @@ impl Runner {
                 self.case = Case::Matrix(rows, cols, ads);
                 ans
             }
-            [op @ ("iter" | "left"), rest @ ..] => {
+            [op @ ("iter" | "left" | "consume"), rest @ ..] => {
                 let o = parse_op(op, rest);
                 match &self.case {
                     Case::None => "no-source".into(),
@@ -1734,7 +2054,15 @@ fn shapes_up_to(max_d: usize, max_product: usize) -> Vec<Vec<usize>> {
 fn named(g: &mut Gen, lens: &[usize]) -> Vec<(&'static str, usize)> {
     let mut pool: Vec<&str> = NAME_POOL.to_vec();
     g.rng.shuffle(&mut pool);
-    lens.iter().enumerate().map(|(i, l)| (intern(pool[i]), *l)).collect()
+    if g.rng.chance(1, 2) {
+        // names the library uses internally, prefixes of one another, the empty name …
+        // (wire tokens: the runner interns them)
+        g.count("names.adversarial");
+        let names = adversarial_names(&mut g.rng, lens.len());
+        return lens.iter().enumerate().map(|(i, l)| (names[i], *l)).collect();
+    }
+    g.count("names.plain");
+    lens.iter().enumerate().map(|(i, l)| (wire_name(pool[i]), *l)).collect()
 }
 
 const FLAVOURS: [&str; 4] = ["copy", "ref", "mut", "owned"];
@@ -1798,7 +2126,11 @@ fn random_tad(g: &mut Gen, shape: &[(&'static str, usize)]) -> Option<TAd> {
         5 => {
             let mut pool: Vec<&str> = NAME_POOL.to_vec();
             g.rng.shuffle(&mut pool);
-            Some(TAd::Rename(pool[..d].iter().map(|n| intern(n)).collect()))
+            if g.rng.chance(1, 2) {
+                // possibly re-using some of the old names at other positions
+                return Some(TAd::Rename(adversarial_names(&mut g.rng, d)));
+            }
+            Some(TAd::Rename(pool[..d].iter().map(|n| wire_name(n)).collect()))
         }
         0 => {
             // a non-empty range on a random non-empty subset of the dimensions
@@ -1861,6 +2193,22 @@ fn wvia(g: &mut Gen, wi: bool) -> &'static str {
     }
 }
 
+/// `count`, `last`, `fold`, `nth.<j>`, `panic.<p>` — all five when `all`, else two of them
+fn random_consumers(g: &mut Gen, total: usize, all: bool) -> Vec<String> {
+    let mut v = vec![
+        "count".to_string(),
+        "last".to_string(),
+        "fold".to_string(),
+        format!("nth.{}", g.rng.below(total + 2)),
+        format!("panic.{}", g.rng.below(total + 1)),
+    ];
+    if !all {
+        g.rng.shuffle(&mut v);
+        v.truncate(2);
+    }
+    v
+}
+
 fn emit_tensor_ops(g: &mut Gen, shape: &[(&'static str, usize)], ads: &[TAd], all: bool) {
     let total: usize = shape.iter().map(|s| s.1).product();
     let mut combos: Vec<(&str, bool)> = vec![];
@@ -1891,6 +2239,17 @@ fn emit_tensor_ops(g: &mut Gen, shape: &[(&'static str, usize)], ads: &[TAd], al
         g.op(format!("iter f={} wi=1 split={} n={} via={}{}", f, k, total + 3, via, w));
         g.count(&format!("tensor.split.f={}", f));
     }
+    // std's consumers on top of `next`, after a prefix of plain calls
+    let consumers = random_consumers(g, total, all);
+    for m in consumers {
+        let f = *g.rng.pick(&FLAVOURS);
+        let wi = g.rng.chance(1, 2);
+        let via = if f == "owned" && g.rng.chance(1, 2) { "boxed_numeric" } else { "boxed" };
+        let w = wvia(g, wi);
+        let after = g.rng.below(total + 2);
+        g.op(format!("consume m={} after={} f={} wi={} n=2 via={}{}", m, after, f, wi as u8, via, w));
+        g.count(&format!("consume.{}", m.split('.').next().unwrap()));
+    }
     // placeholders left behind after a prefix of an owned iteration, source held by &mut
     let ks: Vec<usize> = if all { vec![0, g.rng.below(total + 1), total, total + 2] } else { vec![g.rng.below(total + 2)] };
     for k in ks {
@@ -1911,6 +2270,13 @@ fn gen_tensor_cases(g: &mut Gen) {
         g.op(format!("@ tensor {}", show_shape(&shape)));
         emit_tensor_ops(g, &shape, &[], true);
         g.count("tensor.source=container");
+        // the same container holding zeros / one value / duplicates
+        if g.thorough || g.rng.chance(1, 3) {
+            let sfx = data_suffix(g, 1, 1);
+            g.op(format!("@ tensor {}{}", show_shape(&shape), sfx));
+            emit_tensor_ops(g, &shape, &[], g.thorough);
+            g.count("tensor.source=container-degenerate");
+        }
         if d == 0 {
             continue;
         }
@@ -1931,7 +2297,8 @@ fn gen_tensor_cases(g: &mut Gen) {
                 show_shape(&shape),
                 ads.iter().map(show_tad).collect::<Vec<_>>().join(" ")
             );
-            g.op(header);
+            let sfx = data_suffix(g, 1, 4);
+            g.op(header + &sfx);
             for ad in &ads {
                 g.count(match ad {
                     TAd::Range(_) => "tensor.adaptor=range",
@@ -2124,6 +2491,16 @@ fn emit_matrix_ops(g: &mut Gen, rows: usize, cols: usize, ads: &[MAd], all: bool
             g.count("matrix.diag");
         }
     }
+    for m in random_consumers(g, total, all) {
+        let k = *g.rng.pick(&["rowmajor", "colmajor"]);
+        let f = *g.rng.pick(&FLAVOURS);
+        let wi = g.rng.chance(1, 2);
+        let via = if f == "owned" && g.rng.chance(1, 2) { "from_numeric" } else { "from" };
+        let w = wvia(g, wi);
+        let after = g.rng.below(total + 2);
+        g.op(format!("consume m={} after={} k={} f={} wi={} n=2 via={}{}", m, after, k, f, wi as u8, via, w));
+        g.count(&format!("consume.{}", m.split('.').next().unwrap()));
+    }
     for k in ["rowmajor", "colmajor"] {
         let n = g.rng.below(total + 2);
         let via = if g.rng.chance(1, 3) { "from_numeric" } else { "from" };
@@ -2156,6 +2533,12 @@ fn gen_matrix_cases(g: &mut Gen) {
         g.op(format!("@ matrix {} {}", rows, cols));
         g.count("matrix.source=container");
         emit_matrix_ops(g, rows, cols, &[], true);
+        {
+            let sfx = data_suffix(g, 1, 1);
+            g.op(format!("@ matrix {} {}{}", rows, cols, sfx));
+            g.count("matrix.source=container-degenerate");
+            emit_matrix_ops(g, rows, cols, &[], g.thorough);
+        }
         if rows > 8 || cols > 8 {
             continue;
         }
@@ -2197,11 +2580,13 @@ fn gen_matrix_cases(g: &mut Gen) {
                     c = clip(*cs, *cl, c);
                 }
             }
+            let sfx = data_suffix(g, 1, 4);
             g.op(format!(
-                "@ matrix {} {} {}",
+                "@ matrix {} {} {}{}",
                 rows,
                 cols,
-                ads.iter().map(show_mad).collect::<Vec<_>>().join(" ")
+                ads.iter().map(show_mad).collect::<Vec<_>>().join(" "),
+                sfx
             ));
             g.count(if r == 0 || c == 0 { "matrix.source=empty-view" } else { "matrix.source=view" });
             if r == 0 && c > 0 {
@@ -2220,6 +2605,18 @@ fn gen_matrix_cases(g: &mut Gen) {
 /// reachable only as a boxed composition, like a source under two or more adaptors
 fn zip_vias_marker() -> Vec<TAd> {
     vec![TAd::Reverse(vec![]), TAd::Reverse(vec![])]
+}
+
+/// with probability num/den a degenerate data mode for the case header (` d=<mode>`)
+fn data_suffix(g: &mut Gen, num: usize, den: usize) -> String {
+    if g.rng.chance(num, den) {
+        let m = *g.rng.pick(&["zero", "same", "dup", "mod3"]);
+        g.count(&format!("data.{}", m));
+        format!(" d={}", m)
+    } else {
+        g.count("data.ids");
+        String::new()
+    }
 }
 
 const ZIP_FORMS: [(&str, usize); 7] =
@@ -2259,16 +2656,26 @@ fn gen_zip_cases(g: &mut Gen) {
             let (pre, cur_src) =
                 if ds > 0 && g.rng.chance(1, 2) { random_post(g, &shape, 1) } else { (vec![], shape.clone()) };
             let mut stacked = cur_src.clone();
-            stacked.insert(pos, (intern("s"), n));
+            // the new dimension: "s", or an adversarial name that is not among the sources' names
+            let sname: &'static str = if g.rng.chance(1, 2) {
+                wire_name("s")
+            } else {
+                adversarial_names(&mut g.rng, 12)
+                    .into_iter()
+                    .find(|n| !cur_src.iter().any(|d| d.0 == *n))
+                    .unwrap_or(wire_name("s"))
+            };
+            stacked.insert(pos, (sname, n));
             let (post, cur) = random_post(g, &stacked, 2);
-            let mut header = format!("@ stack {}.s {} {} {}", pos, form, n, show_shape(&shape));
+            let mut header = format!("@ stack {}.{} {} {} {}", pos, sname, form, n, show_shape(&shape));
             for ad in &pre {
                 header.push_str(&format!(" pre:{}", show_tad(ad)));
             }
             for ad in &post {
                 header.push_str(&format!(" {}", show_tad(ad)));
             }
-            g.op(header);
+            let sfx = data_suffix(g, 1, 4);
+            g.op(header + &sfx);
             g.count(&format!("zip.stack.{}{}", form, n));
             g.count(&format!("zip.stack.pre={}.post={}", pre.len(), post.len()));
             g.count(&format!("tensor.D={}", cur.len()));
@@ -2334,7 +2741,8 @@ fn gen_zip_cases(g: &mut Gen) {
             for ad in &post {
                 header.push_str(&format!(" {}", show_tad(ad)));
             }
-            g.op(header);
+            let sfx = data_suffix(g, 1, 4);
+            g.op(header + &sfx);
             g.count(&format!("zip.chain.{}{}", form, n));
             g.count(&format!("zip.chain.pre={}.post={}", pre.len(), post.len()));
             g.count(&format!("tensor.D={}", cur.len()));
